@@ -367,7 +367,7 @@ def run_StochasticIPTW(df, cfg):
 
 def run_TimeFixedGFormula(df, cfg):
     from zepid.causal.gformula import TimeFixedGFormula
-    g = TimeFixedGFormula(df, 'A', 'Y', outcome_type='normal' if cfg['continuous'] else 'binary', standardize=cfg['std'])
+    g = TimeFixedGFormula(df, 'A', 'Y', outcome_type='normal' if cfg['continuous'] else 'binary', standardize=cfg['std'], weights=cfg.get('wts'))
     g.outcome_model(cfg['q'], print_results=False)
     n = cfg['n']
     res = {}
@@ -594,6 +594,7 @@ IPTW_COMBOS = [('exposed', True, False), ('unexposed', True, True), ('population
                ('exposed', False, False), ('population', False, False), ('exposed', True, True), ('unexposed', False, False)]
 IPTW_SEQ = [0]
 CONT_SEQ = {}
+GF_SEQ = [0]
 
 
 def gen_case(rng, cls):
@@ -613,6 +614,14 @@ def gen_case(rng, cls):
                'q': 'A + ' + meta['rhs']}
         if cls in ('IPTW', 'TimeFixedGFormula'):
             cfg['std'] = rng.choice(['population', 'population', 'exposed', 'unexposed'])
+        if cls == 'TimeFixedGFormula':
+            # every (target, weights column or not) combination in turn: under A -> 1-A the weighted 'exposed' branch of one
+            # coding is the weighted 'unexposed' branch of the other
+            GF_SEQ[0] += 1
+            cfg['std'] = ['population', 'exposed', 'unexposed'][GF_SEQ[0] % 3]
+            if (GF_SEQ[0] // 3) % 2 == 0:
+                df['wq'] = [rng.randint(1, 4) for _ in range(len(df))]
+                cfg['wts'] = 'wq'
         if cls == 'IPTW':
             # every (target, stabilised, non-constant numerator) combination in turn: the A -> 1-A transform maps the
             # 'exposed' weights of one coding onto the 'unexposed' weights of the other
